@@ -21,7 +21,11 @@ DEFAULT_TOL = ("exact",)
 RULE = ("family hom/array: every side 0-4 x 5 array kinds (random, symmetric, antisymmetric, separable, sparse), then seeded random sides "
         "1-12 (quick) / 1-40 (thorough) on identical random axes with the exchanged-position counterpart, 3-4 delays each incl. 0; "
         "rectangular grids with unrelated arrays and short arrays (panic path); Gaussian closed form on fine grids; "
-        "family hom/setup: degenerate phase-matched setups (KTP II pp, BBO I angle-tuned, LiNbO3 0 pp, non-collinear KTP) x sides x delays")
+        "family hom/setup: degenerate phase-matched setups (KTP II pp, BBO I angle-tuned, LiNbO3 0 pp, non-collinear KTP) x sides x delays; "
+        "family hom/history: scripts of ~30 setup-level calls (hom_rate_series / hom_visibility) per round: one setup and grid with eight integrator "
+        "variants back to back (Simpson 50/6/n, GaussLegendre 40/4/n, AdaptiveSimpson, ClenshawCurtis) in fixed then random order with repeats, two "
+        "setups alternating on one grid, one setup on two grids; each call vs the array-level function on amplitudes sampled by the harness with "
+        "that call's integrator, repeated calls vs their first result")
 RESIDUAL = ("Riemann-sum-to-integral step of the Gaussian clause is numeric only; floating-point rounding and the order of the parallel "
             "sum are measured by the comparison, not proved")
 CHECKER_MODULES = ["Spdc.Real.HomLemmas"]
@@ -54,5 +58,5 @@ def on_case(op, body, impl_out, model_out):
 
 def families(tier, seed):
     if tier == "quick":
-        return [("hom", seed, 400, ["array"]), ("hom", seed, 40, ["setup"])]
-    return [("hom", seed, 6000, ["array"]), ("hom", seed, 400, ["setup"])]
+        return [("hom", seed, 400, ["array"]), ("hom", seed, 40, ["setup"]), ("hom", seed, 4, ["history"])]
+    return [("hom", seed, 6000, ["array"]), ("hom", seed, 400, ["setup"]), ("hom", seed, 16, ["history"])]
